@@ -14,6 +14,9 @@ EXPLANATION = (
     "has a receiver rooted at a MutexGuard deref or at a RawList created in the same body. M3 RawList's unsafe Send/Sync impls "
     "exist and RawList's only non-Send/Sync field is the owned buffer pointer. Linearizability under schedules is not decided."
 )
+EXPLANATION += (
+    ' A reference or slice made from a guarded pointer (from_raw_parts) escapes like the pointer itself: its lifetime is unchecked.'
+)
 ASSUMPTIONS = [
     "a pointer into the list buffer is valid only while the list's mutex is held (another thread's push may reallocate)",
     "taint is flow-insensitive for propagation and flow-sensitive (guard liveness dataflow) for the use-after-unlock test",
